@@ -19,17 +19,45 @@ def finding_key(mod, case, res):
     return f(case, res)
 
 
+class _Fam(object):
+    """a secondary case family of a check (own harness sub-command, Coq case type and checker)"""
+    def __init__(self, name, d):
+        self.name = name
+        self.__dict__.update(d)
+
+
+def families(mod):
+    return {k: _Fam(k, v) for k, v in getattr(mod, "FAMILIES", {}).items()}
+
+
+def fam_of(mod, case):
+    f = case.get("family")
+    return families(mod)[f] if f and f in getattr(mod, "FAMILIES", {}) else mod
+
+
 def evaluate(mod, cases):
-    """cases (dicts from the harness) -> list of result dicts (same order)."""
-    pre = getattr(mod, "preamble", lambda cs: "")(cases)
-    terms = [mod.coq_case(c) for c in cases]
-    return core.coq_eval(mod.HEADER, terms, mod.CASE_TYPE, mod.CHECK_FN, shard=getattr(mod, "SHARD", 250), preamble=pre)
+    """cases (dicts from the harness) -> list of result dicts (same order); cases of a secondary family go to its checker."""
+    groups = {}
+    for i, c in enumerate(cases):
+        f = c.get("family")
+        groups.setdefault(f if f in getattr(mod, "FAMILIES", {}) else None, []).append(i)
+    results = [None] * len(cases)
+    for f, idx in groups.items():
+        m = families(mod)[f] if f else mod
+        cs = [cases[i] for i in idx]
+        pre = getattr(m, "preamble", lambda cs: "")(cs)
+        terms = [m.coq_case(c) for c in cs]
+        rs = core.coq_eval(m.HEADER, terms, m.CASE_TYPE, m.CHECK_FN, shard=getattr(m, "SHARD", 250), preamble=pre)
+        for i, r in zip(idx, rs):
+            results[i] = r
+    return results
 
 
 def shrink(mod, case, res, budget_s=60):
     """Greedy shrinking: try candidate reductions of the *input*, re-run the implementation
     (harness replay mode) and Coq, keep a candidate while the same kind of failure persists."""
-    cands = getattr(mod, "shrink_candidates", None)
+    fm = fam_of(mod, case)
+    cands = getattr(fm, "shrink_candidates", None)
     if cands is None:
         return case, res, False
     t0 = time.time()
@@ -46,10 +74,10 @@ def shrink(mod, case, res, budget_s=60):
             for c in batch:
                 f.write(json.dumps(c) + "\n")
         try:
-            if getattr(mod, "generate", None):
+            if getattr(mod, "generate", None) and fm is mod:
                 reran = mod.rerun(batch)
             else:
-                reran = core.run_harness(mod.HARNESS, replay=fn, extra=getattr(mod, "HARNESS_EXTRA", []))
+                reran = core.run_harness(fm.HARNESS, replay=fn, extra=getattr(fm, "HARNESS_EXTRA", []))
             rr = evaluate(mod, reran)
         except Exception:
             break
@@ -86,15 +114,18 @@ def standard_check(mod, tier, seed, replay=None):
         if replay:
             with open(replay) as f:
                 rp = json.load(f)
-            if gen:
+            fm = fam_of(mod, rp["input"])
+            if gen and fm is mod:
                 cases = mod.rerun([rp["input"]])
             else:
                 fn = os.path.join(core.scratch(), "replay-in.jsonl")
                 with open(fn, "w") as f:
                     f.write(json.dumps(rp["input"]) + "\n")
-                cases = core.run_harness(mod.HARNESS, replay=fn, extra=getattr(mod, "HARNESS_EXTRA", []))
+                cases = core.run_harness(fm.HARNESS, replay=fn, extra=getattr(fm, "HARNESS_EXTRA", []))
         elif gen:
             cases = gen(tier, seed)
+            for fm in families(mod).values():
+                cases += core.run_harness(fm.HARNESS, seed=seed, n=fm.N[tier], extra=getattr(fm, "HARNESS_EXTRA", []))
         else:
             corpus = load_corpus(mod)
             for fn in corpus:
@@ -105,6 +136,8 @@ def standard_check(mod, tier, seed, replay=None):
             n = mod.N[tier]
             cases += core.run_harness(mod.HARNESS, seed=seed, n=n, extra=getattr(mod, "HARNESS_EXTRA", []),
                                       timeout=getattr(mod, "HARNESS_TIMEOUT", 1800))
+            for fm in families(mod).values():
+                cases += core.run_harness(fm.HARNESS, seed=seed, n=fm.N[tier], extra=getattr(fm, "HARNESS_EXTRA", []))
         keep = getattr(mod, "keep", lambda c: True)
         dropped = [c for c in cases if not keep(c)]
         cases = [c for c in cases if keep(c)]
@@ -219,10 +252,19 @@ def write_ev(mod, tier, seed, cases, results, pr, violations, notes):
         for t in r["tags"]:
             hist[t] = hist.get(t, 0) + 1
         if not r["trivial"]:
-            distinct.add(json.dumps(mod.identity(c) if hasattr(mod, "identity") else core_strip_obs(c), sort_keys=True))
-    samples = [mod.sample(c) if hasattr(mod, "sample") else strip(c) for c in cases[:2]]
+            fm = fam_of(mod, c)
+            distinct.add(json.dumps(fm.identity(c) if hasattr(fm, "identity") else core_strip_obs(c), sort_keys=True))
+
+    def smp(c):
+        fm = fam_of(mod, c)
+        return fm.sample(c) if hasattr(fm, "sample") else strip(c)
+    samples = [smp(c) for c in cases[:2]]
     if len(cases) > 4:
-        samples.append(mod.sample(cases[len(cases) // 2]) if hasattr(mod, "sample") else strip(cases[len(cases) // 2]))
+        samples.append(smp(cases[len(cases) // 2]))
+    for fname in getattr(mod, "FAMILIES", {}):
+        fc = [c for c in cases if c.get("family") == fname]
+        if fc:
+            samples.append(smp(fc[len(fc) // 2]))
     cov = {
         "obligations": pr["obligations"], "discharged": pr["discharged"],
         "checker_cmd": "make -C coq -j16 (full .vo build, coq_makefile) && coqc -Q coq WTF coq/Props/%s.v  [Print Assumptions captured]" % mod.ID,
